@@ -1,5 +1,5 @@
-(* C02 -- outbound stream integrity and ordering.  Statements only; proofs in Proofs/LoopData.v. *)
-From GV Require Import Lib.Trace Model.Loop Spec.LoopSpec Proofs.LoopData.
+(* C02 -- outbound stream integrity and ordering.  Statements only; proofs in Proofs/LoopData.v and Proofs/LoopProgress.v. *)
+From GV Require Import Lib.Trace Model.Loop Spec.LoopSpec Proofs.LoopData Proofs.LoopProgress.
 Open Scope Z_scope.
 
 (* For every input stream: the bytes the kernel accepts from a connection are always the
@@ -10,3 +10,13 @@ Open Scope Z_scope.
 Theorem C02_outbound_integrity : forall i t, run_history i = Some t -> outbound_ok t = true.
 Proof. exact outbound_holds. Qed.
 Print Assumptions C02_outbound_integrity.
+
+(* Progress ("accepted output is eventually sent" as far as the loop is responsible for it): for
+   every input stream, whenever the loop goes back to waiting, every registered stream connection
+   that still has accepted bytes buffered has somebody who will send them: level-triggered, its
+   current epoll registration asks for writability; edge-triggered, its last write attempt ended
+   in EAGAIN (the kernel owes an edge) or a write task has been queued for it since.  Outside:
+   ReadFrom not followed by Flush, and connections already doomed by a fatal result. *)
+Theorem C02_outbound_progress : forall i t, run_history i = Some t -> out_progress_ok (is_et i) t = true.
+Proof. exact out_progress_holds. Qed.
+Print Assumptions C02_outbound_progress.
